@@ -1,4 +1,5 @@
 import ObiVerif.Lemmas.TagLookup
+import ObiVerif.Lemmas.TagRecord
 import ObiVerif.Lemmas.TaxExample
 import ObiVerif.Lemmas.QGram
 /-!
@@ -380,5 +381,184 @@ theorem assigned_is_ancestor_of_every_best_acgt {t : Taxo} {depth : Nat → Nat}
     ∀ i ∈ o, (∀ j ∈ o, (candOf q (refs i)).dist ≤ (candOf q (refs j)).dist) → Anc t z (taxids.getD i 0) :=
   assigned_is_ancestor_of_every_best wf hf taxids htax v q.length _ o hperm hs
     (qgramBound_acgt q refs o hq hlq (fun j hj => hr j ((hperm j).1 hj))) lens cs ows z bm n h
+
+/-! ## 5. the selection loop of `Identify` / `BestConsensus` ("horrible hack"), verbatim, fallback branches included
+
+`Model/TagSel.lean` transcribes the loop statement by statement on the TEXT of the entries (`selLoop`: variables
+`d`, `ok`, `identification`; an outer iteration that changes none of them is the outcome `spin`). -/
+
+/-- **closed form of the verbatim loop, for ANY index and ANY text in the entries** (blank taxid parts included):
+with 3 or more units of fuel (one per outer iteration) the loop computes `selSpec` — the entry at `D`; else the
+largest key below `D`; else the smallest key in `0 … 1000`; else the largest key `≤ 1001` (second iteration); a
+found entry whose taxid part is empty leaves by `d < 0` (key 0: `Atoi("")`, panic) or spins.  In particular the
+outcome never depends on the fuel: the Go loop either ends within 3 iterations or repeats one iteration for ever -/
+theorem selection_loop_closed_form (idx : List (Nat × Text)) (D f : Nat) :
+    selLoop idx (f + 3) (selInit idx D) = selSpec idx D ∧ selSpec idx D ≠ .fuel :=
+  ⟨selLoop_eq_spec idx D f, selSpec_ne_fuel idx D⟩
+
+/-- **the text of an entry reads back**: `strings.Split(…, "@")[0]` and `strconv.Atoi` applied to
+`fmt.Sprintf("%d@%s@%s", taxid, name, rank)` give the taxid, whatever the name and the rank (even containing `@`) -/
+theorem entry_text_roundtrip (a : Nat) (nm rk : Text) :
+    part0 (fmtEntry a nm rk) = Nat.toDigits 10 a ∧ parseTaxid (part0 (fmtEntry a nm rk)) = .taxid a :=
+  ⟨part0_fmtEntry a nm rk, parse_fmtEntry a nm rk⟩
+
+/-- **refinement, text layer → numeric layer**: on an index whose entries are `taxid@name@rank` of taxa of the
+taxonomy, the verbatim loop + `Atoi` + `taxo.Taxon` is `selectEntry` for every observed distance -/
+theorem selection_wellformed (t : Taxo) (nm rk : Nat → Text) (idx : List (Nat × Nat))
+    (hnodes : ∀ e ∈ idx, ∃ n, t.node e.2 = some n) (D : Nat) :
+    selectText t (textIndex nm rk idx) D = selectEntry idx D :=
+  selectText_wellformed t nm rk idx hnodes D
+
+/-- **exactly when the Go loop spins** (well-formed index): iff no recorded distance is `≤ max(D, 1001)`; otherwise
+an entry is selected -/
+theorem selection_spins_iff (idx : List (Nat × Nat)) (D : Nat) :
+    (selectEntry idx D = .error .hang ↔ ∀ e ∈ idx, max D 1001 < e.1) ∧
+    ((∃ m, selectEntry idx D = .ok m) ∨ selectEntry idx D = .error .hang) :=
+  ⟨selectEntry_hang_iff idx D, selectEntry_cases idx D⟩
+
+/-- decidable equality of outcomes (for the tests below) -/
+instance decEqRes {ε α : Type} [DecidableEq ε] [DecidableEq α] : DecidableEq (Except ε α)
+  | .ok a, .ok b => if h : a = b then isTrue (by rw [h]) else isFalse (by intro e; cases e; exact h rfl)
+  | .error a, .error b => if h : a = b then isTrue (by rw [h]) else isFalse (by intro e; cases e; exact h rfl)
+  | .ok _, .error _ => isFalse (by intro e; cases e)
+  | .error _, .ok _ => isFalse (by intro e; cases e)
+
+set_option maxRecDepth 20000 in
+/-- (tests) the key 1001 is reached by the second iteration; 1002 is not; a blank entry at the observed distance spins;
+a blank entry at key 0 below the observed distance leaves the loop (`Atoi("")`: panic) -/
+example : selectEntry [(1001, 7)] 3 = .ok 7 ∧ selectEntry [(1002, 7)] 3 = .error .hang ∧
+    selectEntry [(5, 7)] 3 = .ok 7 ∧ selectEntry [(2000, 7)] 2500 = .ok 7 := by decide
+
+example : selSpec [(3, []), (0, fmtEntry 5 [] [])] 3 = .spin ∧ selSpec [(0, ['@', 'x'])] 2 = .exit ∧
+    selSpec [(1, ['@'])] 2 = .spin := by decide
+
+/-- **the index built by `IndexSequence` holds the distance 0, and an index holding it is never read through the
+fallback branches**: under the hypotheses of `index_is_lca`, for a non-empty indexed sequence, for EVERY observed
+distance `D` the downward scan succeeds, the numeric closed form and the verbatim loop on the text of the index
+(any names and ranks) agree on it, and the Go loop ends in its first iteration (unreachability of the upward scan
+and of the spin) -/
+theorem selection_never_falls_back {t : Taxo} {root : Nat} {depth : Nat → Nat} {fuel : Nat}
+    (wf : WF t root depth) (hf : FuelOK t fuel)
+    (taxids : List Nat) (htax : ∀ x ∈ taxids, ∃ n, t.node x = some n)
+    (seqidx lseq : Nat) (hidx : seqidx < taxids.length) (c : Nat → Cand) (ow : List Nat)
+    (hperm : ∀ j, j ∈ ow ↔ j < taxids.length)
+    (hs : SortedByCw c ow) (hq : QGramBound lseq c ow) (hself : (c seqidx).dist = 0) (hl : 0 < lseq)
+    (nm rk : Nat → Text) :
+    ∃ idx, indexSequence t fuel taxids seqidx lseq c ow = .ok idx ∧ (∃ a, idxGet idx 0 = some a) ∧
+      ∀ D, ∃ m, lookDown idx D = some m ∧ selectEntry idx D = .ok m ∧
+        selectText t (textIndex nm rk idx) D = .ok m := by
+  obtain ⟨idx, a, h1, h2⟩ := indexSequence_has_zero wf hf taxids htax seqidx lseq hidx c ow hperm hs hq hself hl
+  refine ⟨idx, h1, ⟨a, h2⟩, ?_⟩
+  intro D
+  obtain ⟨m, m1, m2⟩ := selectEntry_of_zero idx a h2 D
+  refine ⟨m, m1, m2, ?_⟩
+  rw [selectText_wellformed t nm rk idx (fun e he => (indexSequence_anc h1 e he).2) D, m2]
+
+/-- **refinement of `Identify`**: `Identify` run with the verbatim loop on the TEXT of the indices written by
+`IndexSequence` (any scientific names and ranks) is the `identify` of §3 — the theorems of §3 are theorems about the
+transcription that parses `taxid@name@rank`.  No hypothesis: whatever the taxonomy and the candidate data -/
+theorem identify_text_refines (t : Taxo) (fuel : Nat) (fc : FCOut) (nm rk : Nat → Text) (taxids : List Nat)
+    (lens : Nat → Nat) (cs : Nat → Nat → Cand) (ows : Nat → List Nat) :
+    identifyText t fuel fc (fun b => (indexSequence t fuel taxids b (lens b) (cs b) (ows b)).map (textIndex nm rk)) =
+      identify t fuel fc (fun b => indexSequence t fuel taxids b (lens b) (cs b) (ows b)) :=
+  identifyText_eq t fuel fc nm rk _ (fun _ _ hb e he => (indexSequence_anc hb e he).2)
+
+/-- non-vacuity / test: the example of §3 on the text of the indices (names containing `@`) -/
+example : identifyText exT 6 (findClosests .tag1 10 exQ [0, 1, 2])
+    (fun b => (indexSequence exT 6 [3, 4, 5] b 10 (exRows b) (if b = 1 then [1, 0, 2] else [0, 1, 2])).map
+      (textIndex (fun _ => ['a', '@', 'b']) (fun _ => []))) = .ok 2 0 2 := by
+  rw [identify_text_refines]; decide
+
+/-! ## 6. shape of the recorded index -/
+
+/-- **the recorded distances decrease strictly along the lineage**: in insertion order (root side first) the keys
+are strictly decreasing — no entry of the Go map is overwritten and `find?` on the list is the map lookup —, all
+below the length of the indexed sequence, and the recorded taxa are a sub-list of the lineage read from the root:
+a deeper taxon is recorded for a strictly smaller distance.  (Minimality of each recorded distance among the
+references of its level and above is `EntryOK` / `index_is_lca`.) -/
+theorem index_keys_decrease_along_lineage {t : Taxo} {fuel : Nat} {taxids : List Nat} {b lseq : Nat} {c : Nat → Cand}
+    {ow : List Nat} {idx : List (Nat × Nat)} (h : indexSequence t fuel taxids b lseq c ow = .ok idx) :
+    idx.Pairwise (fun e e' => e'.1 < e.1) ∧ (∀ e ∈ idx, e.1 < lseq) ∧
+    ∃ p, Tax.path t fuel (taxids.getD b 0) = .ok p ∧ (idx.map (·.2)).Sublist p.reverse :=
+  indexSequence_shape h
+
+example : ([(4, 1), (1, 2), (0, 3)] : List (Nat × Nat)).Pairwise (fun e e' => e'.1 < e.1) := by decide
+
+/-! ## 7. obitag2 : the exact-match table (`CLIAssignTaxonomy`, `Identify`)
+
+`exactEntry` models the entry of `ExactTaxid` for the bytes of the query, `identify2` the two stages of
+`obitag2.Identify`; both are compared with the real `obitag2.CLIAssignTaxonomy` (query pushed through the returned
+iterator) by the `id3` cases of the harness.  No losslessness is claimed for the two-stage search as a whole: by
+design it looks at the cluster heads, then at one family only. -/
+
+/-- **the exact-match table is the LCA table**: a query whose bytes are those of at least one reference is assigned
+the taxon whose ancestors are exactly the common ancestors of the taxa of ALL the references holding these bytes —
+in particular an ancestor-or-self of the taxon of every best-matching (distance 0) reference; `bestmatch` is the
+first of them -/
+theorem exact_table_is_lca {t : Taxo} {root : Nat} {depth : Nat → Nat} {fuel : Nat}
+    (wf : WF t root depth) (hf : FuelOK t fuel) (same : Nat → Bool) (taxids counts : List Nat)
+    (htax : ∀ x ∈ taxids, ∃ n, t.node x = some n) (i0 : Nat) (hi0 : i0 < taxids.length) (hs0 : same i0 = true) :
+    ∃ z i w, exactEntry t fuel same taxids counts = some (.ok (z, i, w)) ∧
+      i < taxids.length ∧ same i = true ∧ (∀ j, j < i → same j = false) ∧
+      ∀ a, Anc t a z ↔ ∀ j, j < taxids.length → same j = true → Anc t a (taxids.getD j 0) :=
+  exactEntry_lca wf hf same taxids counts htax i0 hi0 hs0
+
+/-- … and `Identify` returns it without searching: whatever the clusters and families -/
+theorem identify2_exact {ι : Type} (sel : ι → Nat → Res Nat) (t : Taxo) (fuel : Nat) (z i w : Nat) (fcC : FCOut)
+    (indexC : Nat → Res ι) (fam : Nat → Option (FCOut × (Nat → Res ι))) :
+    identify2 sel t fuel (some (.ok (z, i, w))) fcC indexC fam = .ok z i w .exact := rfl
+
+/-- non-vacuity of `exact_table_is_lca` on `exT` (1 > 2 > {3, 4}, 1 > 5): references 0 and 2 hold the bytes of the
+query, taxa 3 and 4: the entry is taxon 2, first reference 0, weight 1 + 5 -/
+example : exactEntry exT 6 (fun j => j = 0 || j = 2) [3, 5, 4] [1, 2, 5] = some (.ok (2, 0, 6)) := by decide
+
+/-! ## 8. `Common4Mer` -/
+
+/-- **`Common4Mer` is the sum over the 256 codes of the minimum of the two counters**, for any two tables -/
+theorem common4mer_sum_min (c1 c2 : Array Nat) :
+    common4mer c1 c2 = sumMin (fun i => c1.getD i 0) (fun i => c2.getD i 0) 256 :=
+  foldl_range_eq _ _ 256
+
+/-- **on sequences it is the size of the multiset intersection of their 4-mers** (codes of `Encode4mer`), as long
+as no 16-bit counter wraps (at most 65538 letters); it is symmetric, and it is the quantity bounded below by the
+q-gram lemma (`qgram4_acgt`) -/
+theorem common4_is_multiset_intersection (a b : Bytes) (ha : a.length ≤ 65538) (hb : b.length ≤ 65538) :
+    common4 a b = inter (Kmer.fourmers a) (Kmer.fourmers b) ∧ common4 a b = common4 b a := by
+  refine ⟨common4_eq_inter a b ha hb, ?_⟩
+  unfold common4
+  rw [common4mer_sum_min, common4mer_sum_min]
+  have : ∀ (f g : Nat → Nat) n, sumMin f g n = sumMin g f n := by
+    intro f g n
+    induction n with
+    | zero => rfl
+    | succ n ih => simp only [sumMin, ih, Nat.min_comm]
+  exact this _ _ _
+
+/-! ## 9. IUPAC ambiguity codes: a recorded violation (known finding C15-iupac-prefilter)
+
+The losslessness theorems of §1–§4 are proved for sequences over `a c g t`, where the three kernels agree.  With an
+ambiguity code they do not (`Encode4mer` counts it as `a`, `D1Or0` compares bytes, `FastLCSScore` matches codes by
+set intersection) and the property, which quantifies over every query and data base, is violated by the code. -/
+
+/-- abstract data of the corpus case `fc1 ktagatak atagatat,atagatat,atagatat` : three identical references, each at
+LCS distance 1 of the query (7 matches over 8 columns: `k` matches `t`), 4 shared 4-mers -/
+def exU : Nat → Cand := fun _ => ⟨8, 4, 7, 8⟩
+
+/-- **counterexample with an ambiguity code**: on that case the real `D1Or0` answers `-1` for every reference (two
+byte mismatches).  Under this kernel reading — the first candidate is compared without bound, the others by `D1Or0` —
+`FindClosests` returns one reference out of the three tied at the minimal distance, although the candidates are
+sorted and satisfy the q-gram bound; under the reading valid on `a c g t` (`findClosestsK d1or0 = findClosests`) it
+returns the three.  The candidate order `[2, 1, 0]` is the one the code computes on that case. -/
+theorem findClosests_iupac_counterexample :
+    findClosestsK (fun _ => none) .tag1 8 exU [2, 1, 0] = .ok 1 (7, 8) 2 [2] ∧
+    findClosestsK (fun _ => none) .tag2 8 exU [2, 1, 0] = .ok 1 (7, 8) 2 [2] ∧
+    bruteClosests exU [2, 1, 0] = some (1, [2, 1, 0]) ∧
+    findClosests .tag1 8 exU [2, 1, 0] = .ok 1 (7, 8) 2 [2, 1, 0] ∧
+    SortedByCw exU [2, 1, 0] ∧ QGramBound 8 exU [2, 1, 0] ∧
+    ∀ v lq c o, findClosestsK d1or0 v lq c o = findClosests v lq c o := by
+  refine ⟨by decide, by decide, by decide, by decide, by simp [SortedByCw, exU], ?_, findClosestsK_d1or0⟩
+  intro i _ d hd
+  simp [exU, Cand.dist] at hd ⊢
+  omega
 
 end ObiVerif.Props.C15
